@@ -141,8 +141,8 @@ def _field(ins, ctx, env):
             raise Invalid("W14", f"literal on {t.kind}")
         if not _literal_ok(t, ins):
             raise Invalid("W14", "literal of the wrong type or length")
-        if any(ch in ins.text for ch in '"\\\n'):
-            raise Unspec("literal needs escaping in a Python string")
+        if "\n" in ins.text:
+            raise Unspec("multi-line literal")
         if opt:
             raise Unspec("optional literal field")
     if is_bool_attr(ins, "delimited") or ins.get("delimited") is not None:
